@@ -19,7 +19,9 @@ RULE = (
     'every spelling of the exponent); a result of zero total dimension keeps no dimensional unit; +/- across '
     'dimensions raise. Non-trivial: operands in different units or a compound unit, or cancellation, or a '
     'non-integer exponent, or a reflected operator. Later rounds: signed denominators in (n,d) exponents; integer '
-    'numpy arrays with dict units; reciprocal dimensions in a sum. Distinct = distinct case JSON.'
+    'numpy arrays with dict units; reciprocal dimensions in a sum. Rounds 7-8: the same unit ids with other '
+    'exponents on both sides of a sum; numpy scalars and arrays on the left; exponents given as numpy.float32 / '
+    'float16 and fractions.Fraction. Distinct = distinct case JSON.'
 )
 ASSUMPTIONS = [
     "linear table units only (temperature/logarithmic arithmetic is C05)",
